@@ -3,7 +3,8 @@
                                    upgrade entry point that changes an extended pair's StabilityFee
      asset/keeper/pairs_vault.go   VaultIterateRewards (302-364)   the sweep over the pair's vaults
      rewards/keeper/rewards.go     CalculateVaultInterest (639-697) (Model/AccrualSites.v vault_interest_with)
-     vault/keeper/msg_server.go    MsgCreate (152-176: the new vault is stamped with the block height / time),
+     vault/keeper/msg_server.go    MsgCreate (152-176: the new vault is stamped with the block time and the block height -
+                                   height 0 while the pair's fee is zero),
                                    MsgDeposit / MsgWithdraw / MsgDraw / MsgRepay (CalculateVaultInterest on
                                    AmountOut + InterestAccumulated with the vault's stamps, then the vault is
                                    stamped again, whatever the fee), MsgVaultInterestCalc (1447: the
@@ -136,7 +137,7 @@ Definition pstep (calc : Z -> Z -> Z -> Z -> outcome Z) (s : pstate) (o : pop) :
       Ok (mkPS (ps_now s + dt) (ps_h s + dh) (ps_wl s) (ps_stable s) (ps_fee s) (ps_pbt s) (ps_pbh s) (ps_vaults s)
                (ps_tchg s) (ps_intr s), [])
   | OCreate d =>
-      Ok (with_vaults s (ps_vaults s ++ [mkPV d 0 None (ps_h s) (ps_now s) (ps_now s) false]), [])
+      Ok (with_vaults s (ps_vaults s ++ [mkPV d 0 None (if ps_fee s =? 0 then 0 else ps_h s) (ps_now s) (ps_now s) false]), [])
   | OCalc i =>
       match nth_error (ps_vaults s) i with
       | None => Err 9
@@ -206,5 +207,7 @@ Definition pop_wf (o : pop) : Prop :=
   | OTouch _ delta => 0 <= delta
   | OSetFee f => 0 <= f
   end.
+(* WasmAddExtendedPairsVaultRecords (171-197): the new pair is stamped with the block time and the block
+   height - height 0 when it is created with a zero fee *)
 Definition pinit (now h : Z) (wl stable : bool) (fee : Z) : pstate :=
-  mkPS now h wl stable fee now h [] now false.
+  mkPS now h wl stable fee now (if fee =? 0 then 0 else h) [] now false.
